@@ -1,6 +1,7 @@
 // C06 scenario object: holders of reference-counted values (see spec/refcount/RefCount.tla)
 mixed g0, g1, g2;
 int zero;
+class cv { mixed a; mixed *b; }
 
 void create() { seteuid(getuid()); }
 int nop() { return 1; }
@@ -44,7 +45,9 @@ mixed thrower(mixed a, mixed b, mixed c) { return ({ a, b, c }); }
 int boom(mixed x) { return 1 / zero; }
 // evaluations that hold extra references to g[i] when they fail
 void err(int i, int kind) {
-  mixed v = get(i), t;
+  mixed v = get(i), t, x;
+  mapping m;
+  class cv c;
   switch (kind) {
     case 1: catch(thrower(v, ({ v, v }), 1 / zero)); break;                     // arguments + temporary array on the stack
     case 2: thrower(v, ({ v, ([ "x" : v ]) }), 1 / zero); break;                 // the same, uncaught
@@ -52,6 +55,12 @@ void err(int i, int kind) {
     case 4: t = ({ v, ({ v }) }); sort_array(({ t, t, v }), (: boom($1) :)); break;   // uncaught, inside sort_array
     case 5: catch(filter_array(({ v }), (: boom :)) + ({ v })); break;
     case 6: t = ([ "a" : v, "b" : ({ v }) ]); catch(map_mapping(t, (: boom($2) :))); error("after " + sizeof(t) + "\n"); break;
+    case 7: foreach (x in ({ v, ({ v }) })) boom(x); break;                       // uncaught, inside a foreach over a temporary
+    case 8: catch { foreach (x, t in ([ "a" : v, "b" : ({ v }) ])) boom(t); }; break;    // caught, inside a foreach over a mapping
+    case 9: t = (: $(v) :); catch(evaluate((: boom($(({ v }))) :))); evaluate(t); break;   // values captured by $() in function literals
+    case 10: c = new(class cv); c->a = v; c->b = ({ v, v }); boom(c); break;      // a class instance holding the value, uncaught
+    case 11: catch(sprintf("%O %d", ({ v }), boom(v))); break;                    // efun arguments already evaluated
+    case 12: m = ([ "a" : v ]); m["b"] = ({ v, boom(v) }); break;                 // aggregate under construction, lvalue pending
   }
 }
 // many holders of one value: n references kept in arrays of 10000 slots each
@@ -89,6 +98,7 @@ mixed ident(mixed x) { return x; }
 void use(int i, int kind) {
   mixed v = get(i), t, x;
   mapping m;
+  class cv c;
   switch (kind) {
     case 1: t = ({ v }); nopv(t...); break;                         // spread a one-element array that a variable holds too
     case 2: t = ({ v, v }); nopv(t...); nopv(({ v })...); break;    // two elements; a temporary
@@ -105,5 +115,11 @@ void use(int i, int kind) {
       switch ("al" + "pha" + (i ? "" : "")) { case "alpha": x = 1; break; case "beta": x = 2; break; default: x = 3; }
       switch (i) { case 0: x = 1; break; case 1..5: x = 2; break; default: x = 3; }
       break;
+    case 11: c = new(class cv); c->a = v; c->b = ({ v, v }); t = c->a; x = c->b[1]; c->a = 0; c = 0; break;   // class instance as holder
+    case 12: t = copy(({ v, ([ "k" : v ]) })); x = copy(v); t = 0; break;                                       // deep copies
+    case 13: m = ([ "a" : v, "b" : ({ v }) ]); foreach (x, t in m) ident(t); t = keys(m) + values(m); m = 0; break;
+    case 14: m = ([ "a" : v ]); t = map_mapping(m, (: $2 :)); t = filter_mapping(m, (: 1 :)); t = unique_mapping(({ ({ v }), ({ v }) }), (: sizeof($1) :)); break;
+    case 15: t = member_array(v, ({ ({ v }), v })); t = ({ v, ({ v }) }) & ({ v }); t = explode(sprintf("%O", v), "\n"); t = implode(t, ","); break;
+    case 16: t = (: $(v) :); x = evaluate(t); t = (: ident($(({ v }))) :); x = evaluate(t); t = (: cb, v :); evaluate(t, v); break;   // $() captures
   }
 }
